@@ -79,7 +79,7 @@ pub fn run_case(prop: &str, seed: u64) -> (RunReport, Value) {
         // the job market on its own, driven by synthetic workers
         return crate::s1::market::run_case(seed);
     }
-    if (prop == "C10" && seed % 4 == 0) || (prop == "C02" && seed % 6 == 0) || (prop == "C03" && seed % 8 == 0) || (prop == "C12" && seed % 8 == 0) {
+    if (prop == "C10" && seed % 4 == 0) || (prop == "C02" && seed % 6 == 0) || (prop == "C03" && seed % 8 == 0) || (prop == "C12" && seed % 8 == 0) || (prop == "C11" && seed % 8 == 0) {
         // checker half: DFS with / without symmetry on symmetric process models
         return crate::s1::symmetry::run_case(prop, seed);
     }
@@ -102,7 +102,7 @@ pub fn run_case(prop: &str, seed: u64) -> (RunReport, Value) {
 }
 
 pub fn replay(prop: &str, scenario: &Value) -> Result<RunReport, String> {
-    if (prop == "C10" || prop == "C02" || prop == "C03" || prop == "C12") && scenario.get("spec").is_some() {
+    if (prop == "C10" || prop == "C02" || prop == "C03" || prop == "C12" || prop == "C11") && scenario.get("spec").is_some() {
         return crate::s1::symmetry::replay(prop, scenario);
     }
     if prop == "C05" && scenario.get("workers").is_some() {
@@ -122,7 +122,7 @@ pub fn replay(prop: &str, scenario: &Value) -> Result<RunReport, String> {
 }
 
 pub fn summary(prop: &str, scenario: &Value) -> Value {
-    if (prop == "C10" || prop == "C02" || prop == "C03" || prop == "C12") && scenario.get("spec").is_some() {
+    if (prop == "C10" || prop == "C02" || prop == "C03" || prop == "C12" || prop == "C11") && scenario.get("spec").is_some() {
         return crate::s1::symmetry::summary(scenario);
     }
     if prop == "C05" && scenario.get("workers").is_some() {
@@ -142,7 +142,7 @@ pub fn summary(prop: &str, scenario: &Value) -> Value {
 }
 
 pub fn shrink_candidates(prop: &str, scenario: &Value) -> Vec<Value> {
-    if (prop == "C10" || prop == "C02" || prop == "C03" || prop == "C12") && scenario.get("spec").is_some() {
+    if (prop == "C10" || prop == "C02" || prop == "C03" || prop == "C12" || prop == "C11") && scenario.get("spec").is_some() {
         return crate::s1::symmetry::shrink_candidates(scenario);
     }
     if prop == "C05" && scenario.get("workers").is_some() {
